@@ -1686,6 +1686,8 @@ class Imply(Any):
     def __init__(self, condition, consequence, variable: typing.Union[str, puan.variable] = None):
         if type(condition) == str or issubclass(condition.__class__, puan.variable):
             condition = All(condition)
+        # kept as given: to_json serialises it instead of negating the negated condition back
+        self.given_condition = condition
         self.condition = condition.negate()
         self.consequence = puan.variable(consequence) if type(consequence) == str else consequence
         super().__init__(self.condition, self.consequence, variable=variable)
@@ -1727,7 +1729,7 @@ class Imply(Any):
         """
         d = {
             'type': self.__class__.__name__,
-            'condition': self.condition.negate().to_json(),
+            'condition': (getattr(self, "given_condition", None) or self.condition.negate()).to_json(),
             'consequence': self.consequence.to_json(),
         }
         if not self.generated_id:
